@@ -158,6 +158,7 @@ def check_loop(func, loop, p, frozen=()):
     p = item_keys(loop, p)
     reduced = set()
     plain_locals = set()
+    nested_scope = {id(x) for fn in ast.walk(ast.Module(body=body, type_ignores=[])) if isinstance(fn, (ast.FunctionDef, ast.Lambda)) for x in ast.walk(fn) if x is not fn}
     for st in ast.walk(ast.Module(body=body, type_ignores=[])):
         if isinstance(st, ast.AugAssign):
             t = st.target
@@ -209,6 +210,8 @@ def check_loop(func, loop, p, frozen=()):
                             continue
                         problems.append(('store-not-at-index', st, f'{U.src(t)} is written without the loop index {pname}: {U.src(st)[:100]}'))
         elif isinstance(st, (ast.Break, ast.Return)):
+            if id(st) in nested_scope:
+                continue        # the return of a function defined inside the loop body ends that function, not the loop
             problems.append(('early-exit', st, f'{type(st).__name__.lower()} inside the loop makes the result depend on the order of the items'))
     # loop-carried temporaries: read before assignment within one iteration
     g = C.build(body, region=True)
